@@ -122,10 +122,10 @@ Theorem good_all : forall t1 t2 q, guards t1 t2 -> opsv t1 t2 q -> Good t1 t2 q.
 Proof.
   induction t1 as [a|xs IH|xs IH|kvs IH|xs|xs] using value_ind'; intros t2 q G OV;
     (match goal with |- Good ?t1 _ _ => destruct (ty_eqb (type_of t1) (type_of t2)) eqn:T end;
-     [|destruct G as (W1 & W2 & _ & OK & _); apply Good_type; try assumption; apply tc_of_okp; assumption]).
+     [|destruct G as (W1 & W2 & _ & OK & _); apply Good_type; assumption]).
   all: apply ty_eqb_true in T; destruct t2; try discriminate T; try (destruct a; discriminate T).
   - (* atoms *)
-    apply Good_atom. intros T0. destruct G as (_ & _ & _ & OK & _). apply tc_of_okp; assumption.
+    apply Good_atom.
   - (* lists *)
     rename xs0 into ys.
     destruct (negb (zip c) && forallb is_atom xs && forallb is_atom ys) eqn:Cd.
@@ -176,6 +176,56 @@ Proof.
   intros l. rewrite (map_ext _ (fun x => x)); [apply map_id|]. exact istrip0.
 Qed.
 
+(* the guard on type changes covers the base t1 itself *)
+Lemma tc_b_self t1 t2 : tc_guard conv bidir always t1 t2 -> tc_b conv bidir always t1 t1 t2.
+Proof. intros [F|H]; [left; exact F|right]. intros a' Cv Ev. exists a'. split; [exact Cv|apply H; assumption]. Qed.
+
+Lemma okb_self : forall t1 t2, wf t1 = true -> okp t1 t2 -> okb conv bidir always t1 t1 t2.
+Proof.
+  assert (TC : forall t1 t2, (if ty_eqb (type_of t1) (type_of t2) then True else tc_guard conv bidir always t1 t2) ->
+               (if ty_eqb (type_of t1) (type_of t2) then True else tc_b conv bidir always t1 t1 t2)).
+  { intros t1 t2 H. destruct (ty_eqb _ _); [exact I|apply tc_b_self; exact H]. }
+  induction t1 as [a|xs IH|xs IH|kvs IH|xs|xs] using value_ind'; intros t2 W H.
+  - destruct t2; apply (TC (VAtom a)); exact H.
+  - destruct t2; try (apply (TC (VList xs)); exact H).
+    rewrite okb_list_eq. rewrite okp_list_eq in H. cbn [wf] in W. revert xs0 H.
+    induction IH as [|x xs Hx _ IHl]; intros ys H; [exact I|]. destruct ys as [|y ys]; [exact I|].
+    cbn in W. apply andb_true_iff in W as [Wx W]. cbn in H. destruct H as [H0 H]. cbn. split; [apply Hx; assumption|apply IHl; assumption].
+  - destruct t2; try (apply (TC (VTuple xs)); exact H). exact I.
+  - destruct t2; try (apply (TC (VDict kvs)); exact H).
+    rewrite okb_dict_eq. rewrite okp_dict_eq in H. cbn [wf] in W. apply andb_true_iff in W as [N W].
+    assert (GEN : forall l, (forall kv, In kv l -> In kv kvs) -> okp_dict kvs0 l -> okb_dict conv bidir always kvs0 kvs l);
+      [|apply GEN; [intros; assumption|exact H]].
+    clear H. intros l. induction l as [|[k v1] l IHl]; intros SUB H; [exact I|].
+    cbn in H. destruct H as [H0 H]. cbn. split; [|apply IHl; [intros kv Hkv; apply SUB; right; exact Hkv|exact H]].
+    destruct (assoc k kvs0) as [v2|] eqn:A2; [|exact I].
+    rewrite (assoc_nodup kvs k v1 k N (SUB _ (or_introl eq_refl)) (py_eq_refl k)).
+    eapply Forall_forall in IH; [|apply (SUB _ (or_introl eq_refl))]. cbn [snd] in IH. apply IH; [|exact H0].
+    eapply forallb_forall in W; [|apply (SUB _ (or_introl eq_refl))]. exact W.
+  - destruct t2; apply (TC (VSet xs)); exact H.
+  - destruct t2; apply (TC (VFrozen xs)); exact H.
+Qed.
+
+(* v + Delta(DeepDiff(t1, t2)) = t2 for every well-formed v that equals t1 up to dict / set
+   order and from which the omitted values of type changes are rebuilt as well ([okb]) *)
+Theorem roundtrip_from ro ao t1 t2 v :
+  guards t1 t2 -> opsv t1 t2 [] -> wf v = true -> veqb v t1 = true -> okb conv bidir always v t1 t2 ->
+  let r := run_diff hatom udiff ops nos nos c t1 t2 in
+  let d := to_delta conv bidir always ops t1 t2 (fst r) (snd r) in
+  orders_ok_at ro ao d ->
+  exists t2', apply conv ro ao d v = (t2', 0) /\ veqb t2' t2 = true.
+Proof.
+  intros G OV Wv Vv OB r d HO.
+  pose proof (good_all t1 t2 [] G OV t1 t2 eq_refl eq_refl) as [Hm HG].
+  specialize (HG v Wv Vv OB).
+  assert (Ed : d = D hatom udiff ops c conv bidir always t1 t2 t1 t2 []).
+  { unfold d, r, run_diff, D, E. destruct (diff hatom udiff ops nos nos c t1 t2 [] []) as [es rec]. reflexivity. }
+  rewrite Ed in *. destruct (apply_passes conv ro ao _ v HO Hm) as (P & HA & ->).
+  unfold runs_to in HG. cbn [length] in HG. rewrite sbase0 in HG. destruct (HG P HA) as [He Hv].
+  assert (Eb : d_bidir (D hatom udiff ops c conv bidir always t1 t2 t1 t2 []) = bidir) by reflexivity.
+  rewrite Eb. eexists. split; [|exact Hv]. rewrite He. reflexivity.
+Qed.
+
 (* t1 + Delta(DeepDiff(t1, t2)) = t2 *)
 Theorem roundtrip_at ro ao t1 t2 :
   guards t1 t2 -> opsv t1 t2 [] ->
@@ -184,14 +234,9 @@ Theorem roundtrip_at ro ao t1 t2 :
   orders_ok_at ro ao d ->
   exists t2', apply conv ro ao d t1 = (t2', 0) /\ veqb t2' t2 = true.
 Proof.
-  intros G OV r d HO.
-  pose proof (good_all t1 t2 [] G OV t1 t2 eq_refl eq_refl) as [Hm HG].
-  assert (Ed : d = D hatom udiff ops c conv bidir always t1 t2 t1 t2 []).
-  { unfold d, r, run_diff, D, E. destruct (diff hatom udiff ops nos nos c t1 t2 [] []) as [es rec]. reflexivity. }
-  rewrite Ed in *. destruct (apply_passes conv ro ao _ t1 HO Hm) as (P & HA & ->).
-  cbn [length] in HG. rewrite sbase0 in HG. destruct (HG P HA) as [He Hv].
-  assert (Eb : d_bidir (D hatom udiff ops c conv bidir always t1 t2 t1 t2 []) = bidir) by reflexivity.
-  rewrite Eb. eexists. split; [|exact Hv]. rewrite He. reflexivity.
+  intros G OV. pose proof G as (W1 & _ & _ & OK & _). apply roundtrip_from; try assumption.
+  - apply veqb_refl. exact W1.
+  - apply okb_self; assumption.
 Qed.
 
 Theorem roundtrip ro ao t1 t2 :
